@@ -44,6 +44,12 @@ fn main() {
             supervisor::replay(Path::new(f), quiet)
         }
         Some("probe") => ebv::props::run_probe(&args[2..]),
+        Some("fuzz-corpus") => {
+            if args.len() < 6 {
+                std::process::exit(usage());
+            }
+            supervisor::fuzz_corpus(&args[2], &args[3], Path::new(&args[4]), Path::new(&args[5]))
+        }
         Some("list") => {
             for id in ebv::props::ids() {
                 if let Some(p) = ebv::props::property(id) {
